@@ -81,6 +81,7 @@ def run_prog(case, res):
     nt = False
     for mode in ("single", "five"):
         finals = {}
+        finals_incs = []
         for ic in (None, cfg):
             flog = None
             if mode == "five":
@@ -96,9 +97,9 @@ def run_prog(case, res):
                 c5 = dict(case, kind="pipe", hz=True, icache=ic)
                 out = pipe.run_five(c5, res, "C11", ref, on_sim=on_sim)
                 if out is None:
-                    if ic is not None and pipe.LAST["tag"] in ("C02",):
+                    if ic is not None and pipe.last_was_value_violation():
                         res.violation("C11", "result-changed", "five-stage: the value/order monitors are silent without I-cache but fire with it", case)
-                    elif ic is not None and pipe.LAST["tag"] == "C07":
+                    elif ic is not None and pipe.LAST["kind"] == "cycle-increment":
                         res.violation("C11", "miss-penalty", "five-stage: the cycle/penalty monitor is silent without I-cache but fires with it", case)
                     return
                 sim, flog = out["sim"], holder.get("flog")
@@ -116,8 +117,8 @@ def run_prog(case, res):
                 pm = sim.state.performance_metrics
                 k = 0
                 faulted = False
-                pen_d = (case.get("dcache") or {}).get("pen", 0)
-                prev_c, prev_m, prev_dm = pm.cycles, 0, 0
+                prev_c, prev_m = pm.cycles, 0
+                incs = []
                 while not sim.is_done() and k < case["max_instr"]:
                     try:
                         sim.step()
@@ -130,17 +131,22 @@ def run_prog(case, res):
                         res.violation("C11", "result-changed", "single-cycle step raised %r with the I-cache on, not without it" % (e,), case)
                         return
                     k += 1
+                    incs.append(pm.cycles - prev_c)
                     if ic:
+                        # the I-cache's share of this step's cycles = this step's increment minus the increment of the
+                        # same step in the run without I-cache (same data cache): exactly penalty x new fetch misses
                         st = sim.state.instruction_memory.get_cache_stats()
                         miss = int(st["accesses"]) - int(st["hits"])
-                        dst = sim.state.memory.get_cache_stats()
-                        dmiss = (int(dst["accesses"]) - int(dst["hits"])) if dst else 0
                         if miss != prev_m:
                             res.count("penalty_steps_with_miss")
-                        if pm.cycles - prev_c != 1 + cfg["pen"] * (miss - prev_m) + pen_d * (dmiss - prev_dm):
-                            res.violation("C11", "miss-penalty", "single-cycle step %d: cycle counter advanced by %d with %d new fetch misses (penalty %d)" % (k, pm.cycles - prev_c, miss - prev_m, cfg["pen"]), case)
+                        base = finals_incs[k - 1] if k - 1 < len(finals_incs) else None
+                        if base is not None and incs[-1] - base != cfg["pen"] * (miss - prev_m):
+                            res.violation("C11", "miss-penalty", "single-cycle step %d: cycle counter advanced by %d (%d without I-cache) with %d new fetch misses (penalty %d)" % (k, incs[-1], base, miss - prev_m, cfg["pen"]), case)
                             return
-                        prev_c, prev_m, prev_dm = pm.cycles, miss, dmiss
+                        prev_m = miss
+                    prev_c = pm.cycles
+                if not ic:
+                    finals_incs = incs
                 if ic:
                     res.count("single_runs")
                     if not faulted:
